@@ -2167,248 +2167,6 @@ def r12_sinks(ctx):
                  % (fi.qual, _site_tag(fi, c), ', sink' if len(c.args) > 1 else ''), '%s:yaml.dump:options:%s' % (fi.key, _site_tag(fi, c)),
                  fi.loc(c), 'YAML dump site passes %s: the text differs from what the other sinks produce' % kwset(c))
     r1.done()
-    r3.done()
-
-    r2 = ctx.rule('R10.2', 'ancestors first, registered only: a loop over X.__bases__ recursing under the registry guard '
-                           'dominates the own hook call', floor=3)
-    for key, hook, name, reg in (
-            ('yatiml.loader:Loader.__savorize', '_yatiml_savorize', '__savorize', ['self._registered_classes.values()']),
-            ('yatiml.representers:Representer.__sweeten', '_yatiml_sweeten', '__sweeten', ['dumper.yaml_representers'])):
-        f = fn(P, key)
-        calls = hook_calls(f, hook)
-        rec = [c for c in f.calls(name) if f.live(c)]
-        if not calls:
-            continue
-        X = norm(calls[0].func.value)
-        good = False
-        why = 'no recursion into the base classes'
-        for c in rec:
-            loops = [l for l in enclosing_loops(c, f.node) if isinstance(l, ast.For)]
-            if not loops:
-                why = 'the recursive call is not in a loop over the bases'
-                continue
-            lo = loops[0]
-            if norm(lo.iter) != '%s.__bases__' % X:
-                why = 'the ancestor loop iterates over %s instead of %s.__bases__' % (norm(lo.iter), X)
-                continue
-            bv = norm(lo.target)
-            if not any(norm(a) == bv for a in c.args):
-                why = 'the recursive call is not given the base class'
-                continue
-            if not any(f.has_guard(c, '%s in %s' % (bv, rg), True, expand=False) for rg in reg):
-                why = 'the recursion is not restricted to registered classes (%s)' % reg
-                continue
-            if breaks_of(lo, f.node) or [x for x in loop_exits(lo) if isinstance(x, ast.Return)]:
-                why = 'the ancestor loop can be left early'
-                continue
-            if not all(f.cfg.dominates(f.nid(lo.iter), f.nid(h)) for h in calls):
-                why = 'the own hook is called before the ancestors\' hooks'
-                continue
-            if name == '__savorize':
-                st = enclosing_stmt(c)
-                nodev = f.fi.params[1]
-                if not (isinstance(st, ast.Assign) and norm(st.targets[0]) == nodev and any(norm(a) == nodev for a in c.args)):
-                    why = 'the node returned by the ancestors\' savorize is not the one passed on'
-                    continue
-            good = True
-        r2.check(good, '%s: loop over %s.__bases__, recursion under the registry guard, before the own hook' % (f.fi.qual, X),
-                 f.key('ancestors-first'), f.loc(), '%s: %s' % (f.fi.qual, why))
-        # own hook operates on the node that comes out of the ancestors
-        if name == '__savorize':
-            c = calls[0]
-            a0 = c.args[0] if c.args else None
-            wrap = [norm(x) for x in assigned_from(f, a0.id)] if isinstance(a0, ast.Name) else []
-            rets = f.returns()
-            back = [n for n in f.walk() if isinstance(n, ast.Assign) and norm(n.targets[0]) == f.fi.params[1]
-                    and isinstance(a0, ast.Name) and norm(n.value) == '%s.yaml_node' % a0.id]
-            ok = ('Node(%s)' % f.fi.params[1]) in wrap and bool(back) \
-                and all(isinstance(x.value, ast.Name) and x.value.id == f.fi.params[1] for x in rets) \
-                and all(f.cfg.dominates(f.nid(c), f.nid(b)) for b in back)
-            r2.check(ok, '__savorize wraps the node, calls the hook, and returns the (possibly replaced) yaml_node',
-                     f.key('savorize-dataflow'), f.loc(c), 'the node a savorize hook produced is not what __savorize returns')
-    r2.done()
-
-    r4 = ctx.rule('R10.4', 'placement: savorize after recognition and before recursion into children; sweeten after the '
-                           'mapping was represented and before it is returned; the replaced node continues', floor=4)
-    f = fn(P, PN)
-    S, _, _ = recognise_targets(f)
-    rt = _extracted_var(f, S)
-    node = f.fi.params[1]
-    sav = [c for c in f.calls('__savorize') if f.live(c)]
-    sites = [f.nid(s) for s in extraction_sites(f, S)]
-    for c in sav:
-        st = enclosing_stmt(c)
-        r4.check(isinstance(st, ast.Assign) and norm(st.targets[0]) == node and len(c.args) == 2 and norm(c.args[0]) == node
-                 and norm(c.args[1]) == rt, '%s = self.__savorize(%s, %s)' % (node, node, rt), f.key('savorize-call-shape'),
-                 f.loc(c), 'savorize is not applied to (node, recognised type) with its result continuing as the node')
-        r4.check(any(f.cfg.dominates(s, f.nid(c)) for s in sites if s is not None), 'savorize follows the uniqueness gate',
-                 f.key('savorize-after-recognition'), f.loc(c), 'savorize runs before recognition has decided the type')
-        r4.check(any(t.startswith('%s in self._registered_classes' % rt) for t in f.guard_texts(c)),
-                 'savorize only for registered classes', f.key('savorize-registered-only'), f.loc(c),
-                 'savorize is attempted for types that are not registered classes')
-        for rc in [x for x in f.calls('__process_node') if f.live(x)] + \
-                [x for x in f.calls('class_subobjects') if f.live(x)]:
-            r4.check(must_pass_feasible(f, rc, {f.nid(c)}) or
-                     not any(t.startswith('%s in self._registered_classes' % rt) for t in f.guard_texts(rc)),
-                     'recursion at %s follows savorize' % f.loc(rc), f.key('savorize-before-children'), f.loc(rc),
-                     'attributes are processed before the node was savorized')
-    if not sav:
-        r4.fail(f.key('no-savorize'), f.loc(), '__process_node never savorizes')
-    g = fn(P, 'yatiml.representers:Representer.__call__')
-    sw = [c for c in g.calls('__sweeten') if g.live(c)]
-    rm = [c for c in g.calls('represent_mapping') if g.live(c)]
-    for c in sw:
-        r4.check(bool(rm) and all(g.cfg.dominates(g.nid(m_), g.nid(c)) for m_ in rm), 'sweeten follows represent_mapping',
-                 g.key('sweeten-after-represent'), g.loc(c), 'sweeten runs before the attribute mapping was represented')
-        r4.check(len(c.args) == 3 and norm(c.args[1]) == 'self.class_', 'sweeten starts at the represented object\'s class',
-                 g.key('sweeten-class'), g.loc(c), 'sweeten is started with %s' % [norm(a) for a in c.args])
-        w = c.args[2] if len(c.args) == 3 else None
-        for ret in g.returns():
-            val = g.copies.expand(ret.value) if ret.value is not None else None
-            txt = norm(val) if val is not None else ''
-            okv = isinstance(w, ast.Name) and ('%s.yaml_node' % w.id) in [norm(x) for x in
-                                                                         _flow_sources(g, ret.value)]
-            r4.check(g.cfg.dominates(g.nid(c), g.nid(ret)) and okv,
-                     'the sweetened node (%s.yaml_node) is what is returned, after sweetening' % (w.id if isinstance(w, ast.Name) else w),
-                     g.key('sweetened-node-returned'), g.loc(ret), 'Representer.__call__ returns %s, not the sweetened node' % txt)
-    if not sw:
-        r4.fail(g.key('no-sweeten'), g.loc(), 'Representer.__call__ never sweetens')
-    r4.done()
-
-    r5 = ctx.rule('R10.5', 'a SeasoningError raised while savourising is converted to RecognitionError', floor=1)
-    for c in sav:
-        h = handler_for(f, c, {'SeasoningError', 'Exception', 'RuntimeError', 'BaseException'})
-        if h is None:
-            r5.fail(f.key('savorize-unhandled'), f.loc(c), 'the savorize call is not inside a handler for SeasoningError')
-        else:
-            ok, why = handler_converts(f, h)
-            r5.check(ok, 'except %s around savorize raises RecognitionError' % norm(h.type) if h.type else 'bare except',
-                     f.key('savorize-handler'), f.loc(h), 'the handler around savorize does not convert to RecognitionError: %s' % why)
-    r5.done()
-
-
-def must_pass_feasible(f: Fn, target: ast.AST, through: Set[int]) -> bool:
-    """every *feasible* path entry ->* target crosses `through`: paths that take the opposite side of a condition which
-    is a (still valid) guard of the target are infeasible and are cut"""
-    tn = f.nid(target)
-    contra = set()
-    for g, pol in f.guards(target):
-        txt = norm(g)
-        names = {x.id for x in ast.walk(g) if isinstance(x, ast.Name)} - {'self'}
-        if any(len(f.changes_of(v)) > 1 for v in names):
-            continue
-        for b in f.cfg.nodes:
-            if b.kind == 'branch' and b.pol != pol and norm(b.ast) == txt and not f.cfg.dominates(b.id, tn):
-                contra.add(b.id)
-    return f.cfg.must_pass(f.cfg.entry, tn, set(through) | contra)
-
-
-def _flow_sources(f: Fn, e: ast.AST, depth=3) -> List[ast.AST]:
-    """expressions that may flow into `e` through local assignments and casts"""
-    out = [e]
-    if depth == 0 or e is None:
-        return out
-    if isinstance(e, ast.Call) and call_name(e) == 'cast' and len(e.args) == 2:
-        out += _flow_sources(f, e.args[1], depth - 1)
-    if isinstance(e, ast.Name):
-        for rhs in assigned_from(f, e.id):
-            out += _flow_sources(f, rhs, depth - 1)
-    return out
-
-
-# =====================================================================================================
-# dump side: C06, C07 (options), C11, C12
-# =====================================================================================================
-from ..effects import world, call_closure, direct_writes
-
-DUMP_FACTORIES = ['dumps_function', 'dump_function', 'dumps_json_function', 'dump_json_function']
-REPRESENTER_ROOTS = ['yatiml.representers:Representer.__call__', 'yatiml.representers:EnumRepresenter.__call__',
-                     'yatiml.representers:UserStringRepresenter.__call__', 'yatiml.representers:PathRepresenter.__call__',
-                     'yatiml.dumper:Dumper.represent_ordereddict', 'yatiml.dumper:Dumper.__init__', 'yatiml.dumper:Dumper.emit']
-
-
-def yaml_calls(P: Program, attr: str) -> List[Tuple[FunctionInfo, ast.Call]]:
-    out = []
-    for fi in P.yatiml_functions():
-        for c in walk_function(fi.node):
-            if isinstance(c, ast.Call) and isinstance(c.func, ast.Attribute) and c.func.attr == attr \
-                    and isinstance(c.func.value, ast.Name) and fi.module.imports.get(c.func.value.id) == 'yaml':
-                out.append((fi, c))
-    return out
-
-
-def factory_of(fi: FunctionInfo) -> Optional[FunctionInfo]:
-    p = fi
-    while p.parent is not None:
-        p = p.parent
-    return p
-
-
-def r06_5_dumper_sinks(ctx, rid='R06.5'):
-    P = ctx.P
-    r = ctx.rule(rid, 'every yaml.dump call passes Dumper= the UserDumper class created by its own factory (a subclass of '
-                      'yatiml.Dumper)', floor=4)
-    for fi, c in yaml_calls(P, 'dump') + yaml_calls(P, 'dump_all') + yaml_calls(P, 'safe_dump') + yaml_calls(P, 'serialize'):
-        if c.func.attr in ('safe_dump', 'serialize'):
-            r.fail('%s:%s' % (fi.key, c.func.attr), fi.loc(c), 'yaml.%s bypasses the yatiml Dumper' % c.func.attr)
-            continue
-        de = kwarg(c, 'Dumper')
-        cl = _value_classes(P, fi, de) if de is not None else []
-        fac = factory_of(fi)
-        ok = bool(cl) and all(P.is_subclass(k, 'yatiml.dumper:Dumper') and k.parent_func is fac for k in cl)
-        sink = 'stream' if len(c.args) > 1 else 'string'
-        r.check(ok, '%s: yaml.dump(.., Dumper=%s) -> %s' % (fi.qual, norm(de) if de is not None else None, [k.qual for k in cl]),
-                '%s:yaml.dump:Dumper:%s' % (fi.key, _site_tag(fi, c)), fi.loc(c),
-                'yaml.dump (%s sink) is called with Dumper=%s: PyYAML\'s default Dumper would emit !!python/object tags and '
-                'ignore the registered representers' % (sink, norm(de) if de is not None else 'nothing'))
-    r.done()
-
-
-def _site_tag(fi: FunctionInfo, c: ast.Call) -> str:
-    """stable name of a yaml.dump call site: which sink branch it serves"""
-    f = fn_of(fi)
-    gs = f.guard_texts(c)
-    if any('isinstance(sink, Path)' == g for g in gs):
-        return 'path-sink'
-    if any('not isinstance(sink, Path)' == g for g in gs):
-        return 'stream-sink'
-    return 'string' if len(c.args) <= 1 else 'sink'
-
-
-_fnobj_cache: Dict[str, Fn] = {}
-
-
-def fn_of(fi: FunctionInfo) -> Fn:
-    k = '%d:%s' % (id(fi), fi.key)
-    if k not in _fnobj_cache:
-        if len(_fnobj_cache) > 300:
-            _fnobj_cache.clear()
-        _fnobj_cache[k] = Fn(fi)
-    return _fnobj_cache[k]
-
-
-def r12_sinks(ctx):
-    P = ctx.P
-    dumps = yaml_calls(P, 'dump')
-    by_factory: Dict[str, List[Tuple[FunctionInfo, ast.Call]]] = {}
-    for fi, c in dumps:
-        by_factory.setdefault(factory_of(fi).name, []).append((fi, c))
-
-    def kwset(c):
-        return {k.arg: norm(k.value) for k in c.keywords if k.arg != 'Dumper'}
-
-    r1 = ctx.rule('R12.1', 'YAML sinks: the string variant and both file/stream branches call yaml.dump with the same options',
-                  floor=2)
-    sites = by_factory.get('dumps_function', []) + by_factory.get('dump_function', [])
-    for fi, c in sites:
-        r1.check(kwset(c) == {} and norm(c.args[0]) == fi.params[1], '%s %s: yaml.dump(obj%s) with no further options'
-                 % (fi.qual, _site_tag(fi, c), ', sink' if len(c.args) > 1 else ''), '%s:yaml.dump:options:%s' % (fi.key, _site_tag(fi, c)),
-                 fi.loc(c), 'YAML dump site passes %s: the text differs from what the other sinks produce' % kwset(c))
-    n_str = len(by_factory.get('dumps_function', []))
-    n_file = len(by_factory.get('dump_function', []))
-    r1.check(n_str == 1 and n_file >= 2, '1 string site and %d file/stream sites' % n_file, 'yatiml.dumper:yaml-dump-sites',
-             'yatiml/dumper.py', 'expected one yaml.dump site in dumps_function and two in dump_function, found %d/%d' % (n_str, n_file))
-    r1.done()
 
     r2 = ctx.rule('R12.2', 'JSON sinks: all three yaml.dump sites pass indent=<param indent> and allow_unicode=not <param '
                            'ensure_ascii>', floor=2)
@@ -2420,441 +2178,6 @@ def r12_sinks(ctx):
                  '%s:yaml.dump:json-options:%s' % (fi.key, _site_tag(fi, c)), fi.loc(c),
                  'JSON dump site passes %s instead of indent=indent, allow_unicode=not ensure_ascii: this sink ignores or '
                  'inverts an option the other sinks honour' % kw)
-    r2.done()
-
-    r4 = ctx.rule('R10.4', 'placement: savorize after recognition and before recursion into children; sweeten after the '
-                           'mapping was represented and before it is returned; the replaced node continues', floor=4)
-    f = fn(P, PN)
-    S, _, _ = recognise_targets(f)
-    rt = _extracted_var(f, S)
-    node = f.fi.params[1]
-    sav = [c for c in f.calls('__savorize') if f.live(c)]
-    sites = [f.nid(s) for s in extraction_sites(f, S)]
-    for c in sav:
-        st = enclosing_stmt(c)
-        r4.check(isinstance(st, ast.Assign) and norm(st.targets[0]) == node and len(c.args) == 2 and norm(c.args[0]) == node
-                 and norm(c.args[1]) == rt, '%s = self.__savorize(%s, %s)' % (node, node, rt), f.key('savorize-call-shape'),
-                 f.loc(c), 'savorize is not applied to (node, recognised type) with its result continuing as the node')
-        r4.check(any(f.cfg.dominates(s, f.nid(c)) for s in sites if s is not None), 'savorize follows the uniqueness gate',
-                 f.key('savorize-after-recognition'), f.loc(c), 'savorize runs before recognition has decided the type')
-        r4.check(any(t.startswith('%s in self._registered_classes' % rt) for t in f.guard_texts(c)),
-                 'savorize only for registered classes', f.key('savorize-registered-only'), f.loc(c),
-                 'savorize is attempted for types that are not registered classes')
-        for rc in [x for x in f.calls('__process_node') if f.live(x)] + \
-                [x for x in f.calls('class_subobjects') if f.live(x)]:
-            r4.check(must_pass_feasible(f, rc, {f.nid(c)}) or
-                     not any(t.startswith('%s in self._registered_classes' % rt) for t in f.guard_texts(rc)),
-                     'recursion at %s follows savorize' % f.loc(rc), f.key('savorize-before-children'), f.loc(rc),
-                     'attributes are processed before the node was savorized')
-    if not sav:
-        r4.fail(f.key('no-savorize'), f.loc(), '__process_node never savorizes')
-    g = fn(P, 'yatiml.representers:Representer.__call__')
-    sw = [c for c in g.calls('__sweeten') if g.live(c)]
-    rm = [c for c in g.calls('represent_mapping') if g.live(c)]
-    for c in sw:
-        r4.check(bool(rm) and all(g.cfg.dominates(g.nid(m_), g.nid(c)) for m_ in rm), 'sweeten follows represent_mapping',
-                 g.key('sweeten-after-represent'), g.loc(c), 'sweeten runs before the attribute mapping was represented')
-        r4.check(len(c.args) == 3 and norm(c.args[1]) == 'self.class_', 'sweeten starts at the represented object\'s class',
-                 g.key('sweeten-class'), g.loc(c), 'sweeten is started with %s' % [norm(a) for a in c.args])
-        w = c.args[2] if len(c.args) == 3 else None
-        for ret in g.returns():
-            val = g.copies.expand(ret.value) if ret.value is not None else None
-            txt = norm(val) if val is not None else ''
-            okv = isinstance(w, ast.Name) and ('%s.yaml_node' % w.id) in [norm(x) for x in
-                                                                         _flow_sources(g, ret.value)]
-            r4.check(g.cfg.dominates(g.nid(c), g.nid(ret)) and okv,
-                     'the sweetened node (%s.yaml_node) is what is returned, after sweetening' % (w.id if isinstance(w, ast.Name) else w),
-                     g.key('sweetened-node-returned'), g.loc(ret), 'Representer.__call__ returns %s, not the sweetened node' % txt)
-    if not sw:
-        r4.fail(g.key('no-sweeten'), g.loc(), 'Representer.__call__ never sweetens')
-    r4.done()
-
-    r5 = ctx.rule('R10.5', 'a SeasoningError raised while savourising is converted to RecognitionError', floor=1)
-    for c in sav:
-        h = handler_for(f, c, {'SeasoningError', 'Exception', 'RuntimeError', 'BaseException'})
-        if h is None:
-            r5.fail(f.key('savorize-unhandled'), f.loc(c), 'the savorize call is not inside a handler for SeasoningError')
-        else:
-            ok, why = handler_converts(f, h)
-            r5.check(ok, 'except %s around savorize raises RecognitionError' % norm(h.type) if h.type else 'bare except',
-                     f.key('savorize-handler'), f.loc(h), 'the handler around savorize does not convert to RecognitionError: %s' % why)
-    r5.done()
-
-
-def must_pass_feasible(f: Fn, target: ast.AST, through: Set[int]) -> bool:
-    """every *feasible* path entry ->* target crosses `through`: paths that take the opposite side of a condition which
-    is a (still valid) guard of the target are infeasible and are cut"""
-    tn = f.nid(target)
-    contra = set()
-    for g, pol in f.guards(target):
-        txt = norm(g)
-        names = {x.id for x in ast.walk(g) if isinstance(x, ast.Name)} - {'self'}
-        if any(len(f.changes_of(v)) > 1 for v in names):
-            continue
-        for b in f.cfg.nodes:
-            if b.kind == 'branch' and b.pol != pol and norm(b.ast) == txt and not f.cfg.dominates(b.id, tn):
-                contra.add(b.id)
-    return f.cfg.must_pass(f.cfg.entry, tn, set(through) | contra)
-
-
-def _flow_sources(f: Fn, e: ast.AST, depth=3) -> List[ast.AST]:
-    """expressions that may flow into `e` through local assignments and casts"""
-    out = [e]
-    if depth == 0 or e is None:
-        return out
-    if isinstance(e, ast.Call) and call_name(e) == 'cast' and len(e.args) == 2:
-        out += _flow_sources(f, e.args[1], depth - 1)
-    if isinstance(e, ast.Name):
-        for rhs in assigned_from(f, e.id):
-            out += _flow_sources(f, rhs, depth - 1)
-    return out
-
-
-# =====================================================================================================
-# dump side: C06, C07 (options), C11, C12
-# =====================================================================================================
-from ..effects import world, call_closure, direct_writes
-
-DUMP_FACTORIES = ['dumps_function', 'dump_function', 'dumps_json_function', 'dump_json_function']
-REPRESENTER_ROOTS = ['yatiml.representers:Representer.__call__', 'yatiml.representers:EnumRepresenter.__call__',
-                     'yatiml.representers:UserStringRepresenter.__call__', 'yatiml.representers:PathRepresenter.__call__',
-                     'yatiml.dumper:Dumper.represent_ordereddict', 'yatiml.dumper:Dumper.__init__', 'yatiml.dumper:Dumper.emit']
-
-
-def yaml_calls(P: Program, attr: str) -> List[Tuple[FunctionInfo, ast.Call]]:
-    out = []
-    for fi in P.yatiml_functions():
-        for c in walk_function(fi.node):
-            if isinstance(c, ast.Call) and isinstance(c.func, ast.Attribute) and c.func.attr == attr \
-                    and isinstance(c.func.value, ast.Name) and fi.module.imports.get(c.func.value.id) == 'yaml':
-                out.append((fi, c))
-    return out
-
-
-def factory_of(fi: FunctionInfo) -> Optional[FunctionInfo]:
-    p = fi
-    while p.parent is not None:
-        p = p.parent
-    return p
-
-
-def r06_5_dumper_sinks(ctx, rid='R06.5'):
-    P = ctx.P
-    r = ctx.rule(rid, 'every yaml.dump call passes Dumper= the UserDumper class created by its own factory (a subclass of '
-                      'yatiml.Dumper)', floor=4)
-    for fi, c in yaml_calls(P, 'dump') + yaml_calls(P, 'dump_all') + yaml_calls(P, 'safe_dump') + yaml_calls(P, 'serialize'):
-        if c.func.attr in ('safe_dump', 'serialize'):
-            r.fail('%s:%s' % (fi.key, c.func.attr), fi.loc(c), 'yaml.%s bypasses the yatiml Dumper' % c.func.attr)
-            continue
-        de = kwarg(c, 'Dumper')
-        cl = _value_classes(P, fi, de) if de is not None else []
-        fac = factory_of(fi)
-        ok = bool(cl) and all(P.is_subclass(k, 'yatiml.dumper:Dumper') and k.parent_func is fac for k in cl)
-        sink = 'stream' if len(c.args) > 1 else 'string'
-        r.check(ok, '%s: yaml.dump(.., Dumper=%s) -> %s' % (fi.qual, norm(de) if de is not None else None, [k.qual for k in cl]),
-                '%s:yaml.dump:Dumper:%s' % (fi.key, _site_tag(fi, c)), fi.loc(c),
-                'yaml.dump (%s sink) is called with Dumper=%s: PyYAML\'s default Dumper would emit !!python/object tags and '
-                'ignore the registered representers' % (sink, norm(de) if de is not None else 'nothing'))
-    r.done()
-
-
-def _site_tag(fi: FunctionInfo, c: ast.Call) -> str:
-    """stable name of a yaml.dump call site: which sink branch it serves"""
-    f = fn_of(fi)
-    gs = f.guard_texts(c)
-    if any('isinstance(sink, Path)' == g for g in gs):
-        return 'path-sink'
-    if any('not isinstance(sink, Path)' == g for g in gs):
-        return 'stream-sink'
-    return 'string' if len(c.args) <= 1 else 'sink'
-
-
-_fnobj_cache: Dict[str, Fn] = {}
-
-
-def fn_of(fi: FunctionInfo) -> Fn:
-    k = '%d:%s' % (id(fi), fi.key)
-    if k not in _fnobj_cache:
-        if len(_fnobj_cache) > 300:
-            _fnobj_cache.clear()
-        _fnobj_cache[k] = Fn(fi)
-    return _fnobj_cache[k]
-
-
-def r12_sinks(ctx):
-    P = ctx.P
-    dumps = yaml_calls(P, 'dump')
-    by_factory: Dict[str, List[Tuple[FunctionInfo, ast.Call]]] = {}
-    for fi, c in dumps:
-        by_factory.setdefault(factory_of(fi).name, []).append((fi, c))
-
-    def kwset(c):
-        return {k.arg: norm(k.value) for k in c.keywords if k.arg != 'Dumper'}
-
-    r1 = ctx.rule('R12.1', 'YAML sinks: the string variant and both file/stream branches call yaml.dump with the same options',
-                  floor=2)
-    sites = by_factory.get('dumps_function', []) + by_factory.get('dump_function', [])
-    for fi, c in sites:
-        r1.check(kwset(c) == {} and norm(c.args[0]) == fi.params[1], '%s %s: yaml.dump(obj%s) with no further options'
-                 % (fi.qual, _site_tag(fi, c), ', sink' if len(c.args) > 1 else ''), '%s:yaml.dump:options:%s' % (fi.key, _site_tag(fi, c)),
-                 fi.loc(c), 'YAML dump site passes %s: the text differs from what the other sinks produce' % kwset(c))
-    r1.done()
-    r3.done()
-
-    r2 = ctx.rule('R10.2', 'ancestors first, registered only: a loop over X.__bases__ recursing under the registry guard '
-                           'dominates the own hook call', floor=3)
-    for key, hook, name, reg in (
-            ('yatiml.loader:Loader.__savorize', '_yatiml_savorize', '__savorize', ['self._registered_classes.values()']),
-            ('yatiml.representers:Representer.__sweeten', '_yatiml_sweeten', '__sweeten', ['dumper.yaml_representers'])):
-        f = fn(P, key)
-        calls = hook_calls(f, hook)
-        rec = [c for c in f.calls(name) if f.live(c)]
-        if not calls:
-            continue
-        X = norm(calls[0].func.value)
-        good = False
-        why = 'no recursion into the base classes'
-        for c in rec:
-            loops = [l for l in enclosing_loops(c, f.node) if isinstance(l, ast.For)]
-            if not loops:
-                why = 'the recursive call is not in a loop over the bases'
-                continue
-            lo = loops[0]
-            if norm(lo.iter) != '%s.__bases__' % X:
-                why = 'the ancestor loop iterates over %s instead of %s.__bases__' % (norm(lo.iter), X)
-                continue
-            bv = norm(lo.target)
-            if not any(norm(a) == bv for a in c.args):
-                why = 'the recursive call is not given the base class'
-                continue
-            if not any(f.has_guard(c, '%s in %s' % (bv, rg), True, expand=False) for rg in reg):
-                why = 'the recursion is not restricted to registered classes (%s)' % reg
-                continue
-            if breaks_of(lo, f.node) or [x for x in loop_exits(lo) if isinstance(x, ast.Return)]:
-                why = 'the ancestor loop can be left early'
-                continue
-            if not all(f.cfg.dominates(f.nid(lo.iter), f.nid(h)) for h in calls):
-                why = 'the own hook is called before the ancestors\' hooks'
-                continue
-            if name == '__savorize':
-                st = enclosing_stmt(c)
-                nodev = f.fi.params[1]
-                if not (isinstance(st, ast.Assign) and norm(st.targets[0]) == nodev and any(norm(a) == nodev for a in c.args)):
-                    why = 'the node returned by the ancestors\' savorize is not the one passed on'
-                    continue
-            good = True
-        r2.check(good, '%s: loop over %s.__bases__, recursion under the registry guard, before the own hook' % (f.fi.qual, X),
-                 f.key('ancestors-first'), f.loc(), '%s: %s' % (f.fi.qual, why))
-        # own hook operates on the node that comes out of the ancestors
-        if name == '__savorize':
-            c = calls[0]
-            a0 = c.args[0] if c.args else None
-            wrap = [norm(x) for x in assigned_from(f, a0.id)] if isinstance(a0, ast.Name) else []
-            rets = f.returns()
-            back = [n for n in f.walk() if isinstance(n, ast.Assign) and norm(n.targets[0]) == f.fi.params[1]
-                    and isinstance(a0, ast.Name) and norm(n.value) == '%s.yaml_node' % a0.id]
-            ok = ('Node(%s)' % f.fi.params[1]) in wrap and bool(back) \
-                and all(isinstance(x.value, ast.Name) and x.value.id == f.fi.params[1] for x in rets) \
-                and all(f.cfg.dominates(f.nid(c), f.nid(b)) for b in back)
-            r2.check(ok, '__savorize wraps the node, calls the hook, and returns the (possibly replaced) yaml_node',
-                     f.key('savorize-dataflow'), f.loc(c), 'the node a savorize hook produced is not what __savorize returns')
-    r2.done()
-
-    r4 = ctx.rule('R10.4', 'placement: savorize after recognition and before recursion into children; sweeten after the '
-                           'mapping was represented and before it is returned; the replaced node continues', floor=4)
-    f = fn(P, PN)
-    S, _, _ = recognise_targets(f)
-    rt = _extracted_var(f, S)
-    node = f.fi.params[1]
-    sav = [c for c in f.calls('__savorize') if f.live(c)]
-    sites = [f.nid(s) for s in extraction_sites(f, S)]
-    for c in sav:
-        st = enclosing_stmt(c)
-        r4.check(isinstance(st, ast.Assign) and norm(st.targets[0]) == node and len(c.args) == 2 and norm(c.args[0]) == node
-                 and norm(c.args[1]) == rt, '%s = self.__savorize(%s, %s)' % (node, node, rt), f.key('savorize-call-shape'),
-                 f.loc(c), 'savorize is not applied to (node, recognised type) with its result continuing as the node')
-        r4.check(any(f.cfg.dominates(s, f.nid(c)) for s in sites if s is not None), 'savorize follows the uniqueness gate',
-                 f.key('savorize-after-recognition'), f.loc(c), 'savorize runs before recognition has decided the type')
-        r4.check(any(t.startswith('%s in self._registered_classes' % rt) for t in f.guard_texts(c)),
-                 'savorize only for registered classes', f.key('savorize-registered-only'), f.loc(c),
-                 'savorize is attempted for types that are not registered classes')
-        for rc in [x for x in f.calls('__process_node') if f.live(x)] + \
-                [x for x in f.calls('class_subobjects') if f.live(x)]:
-            r4.check(must_pass_feasible(f, rc, {f.nid(c)}) or
-                     not any(t.startswith('%s in self._registered_classes' % rt) for t in f.guard_texts(rc)),
-                     'recursion at %s follows savorize' % f.loc(rc), f.key('savorize-before-children'), f.loc(rc),
-                     'attributes are processed before the node was savorized')
-    if not sav:
-        r4.fail(f.key('no-savorize'), f.loc(), '__process_node never savorizes')
-    g = fn(P, 'yatiml.representers:Representer.__call__')
-    sw = [c for c in g.calls('__sweeten') if g.live(c)]
-    rm = [c for c in g.calls('represent_mapping') if g.live(c)]
-    for c in sw:
-        r4.check(bool(rm) and all(g.cfg.dominates(g.nid(m_), g.nid(c)) for m_ in rm), 'sweeten follows represent_mapping',
-                 g.key('sweeten-after-represent'), g.loc(c), 'sweeten runs before the attribute mapping was represented')
-        r4.check(len(c.args) == 3 and norm(c.args[1]) == 'self.class_', 'sweeten starts at the represented object\'s class',
-                 g.key('sweeten-class'), g.loc(c), 'sweeten is started with %s' % [norm(a) for a in c.args])
-        w = c.args[2] if len(c.args) == 3 else None
-        for ret in g.returns():
-            val = g.copies.expand(ret.value) if ret.value is not None else None
-            txt = norm(val) if val is not None else ''
-            okv = isinstance(w, ast.Name) and ('%s.yaml_node' % w.id) in [norm(x) for x in
-                                                                         _flow_sources(g, ret.value)]
-            r4.check(g.cfg.dominates(g.nid(c), g.nid(ret)) and okv,
-                     'the sweetened node (%s.yaml_node) is what is returned, after sweetening' % (w.id if isinstance(w, ast.Name) else w),
-                     g.key('sweetened-node-returned'), g.loc(ret), 'Representer.__call__ returns %s, not the sweetened node' % txt)
-    if not sw:
-        r4.fail(g.key('no-sweeten'), g.loc(), 'Representer.__call__ never sweetens')
-    r4.done()
-
-    r5 = ctx.rule('R10.5', 'a SeasoningError raised while savourising is converted to RecognitionError', floor=1)
-    for c in sav:
-        h = handler_for(f, c, {'SeasoningError', 'Exception', 'RuntimeError', 'BaseException'})
-        if h is None:
-            r5.fail(f.key('savorize-unhandled'), f.loc(c), 'the savorize call is not inside a handler for SeasoningError')
-        else:
-            ok, why = handler_converts(f, h)
-            r5.check(ok, 'except %s around savorize raises RecognitionError' % norm(h.type) if h.type else 'bare except',
-                     f.key('savorize-handler'), f.loc(h), 'the handler around savorize does not convert to RecognitionError: %s' % why)
-    r5.done()
-
-
-def must_pass_feasible(f: Fn, target: ast.AST, through: Set[int]) -> bool:
-    """every *feasible* path entry ->* target crosses `through`: paths that take the opposite side of a condition which
-    is a (still valid) guard of the target are infeasible and are cut"""
-    tn = f.nid(target)
-    contra = set()
-    for g, pol in f.guards(target):
-        txt = norm(g)
-        names = {x.id for x in ast.walk(g) if isinstance(x, ast.Name)} - {'self'}
-        if any(len(f.changes_of(v)) > 1 for v in names):
-            continue
-        for b in f.cfg.nodes:
-            if b.kind == 'branch' and b.pol != pol and norm(b.ast) == txt and not f.cfg.dominates(b.id, tn):
-                contra.add(b.id)
-    return f.cfg.must_pass(f.cfg.entry, tn, set(through) | contra)
-
-
-def _flow_sources(f: Fn, e: ast.AST, depth=3) -> List[ast.AST]:
-    """expressions that may flow into `e` through local assignments and casts"""
-    out = [e]
-    if depth == 0 or e is None:
-        return out
-    if isinstance(e, ast.Call) and call_name(e) == 'cast' and len(e.args) == 2:
-        out += _flow_sources(f, e.args[1], depth - 1)
-    if isinstance(e, ast.Name):
-        for rhs in assigned_from(f, e.id):
-            out += _flow_sources(f, rhs, depth - 1)
-    return out
-
-
-# =====================================================================================================
-# dump side: C06, C07 (options), C11, C12
-# =====================================================================================================
-from ..effects import world, call_closure, direct_writes
-
-DUMP_FACTORIES = ['dumps_function', 'dump_function', 'dumps_json_function', 'dump_json_function']
-REPRESENTER_ROOTS = ['yatiml.representers:Representer.__call__', 'yatiml.representers:EnumRepresenter.__call__',
-                     'yatiml.representers:UserStringRepresenter.__call__', 'yatiml.representers:PathRepresenter.__call__',
-                     'yatiml.dumper:Dumper.represent_ordereddict', 'yatiml.dumper:Dumper.__init__', 'yatiml.dumper:Dumper.emit']
-
-
-def yaml_calls(P: Program, attr: str) -> List[Tuple[FunctionInfo, ast.Call]]:
-    out = []
-    for fi in P.yatiml_functions():
-        for c in walk_function(fi.node):
-            if isinstance(c, ast.Call) and isinstance(c.func, ast.Attribute) and c.func.attr == attr \
-                    and isinstance(c.func.value, ast.Name) and fi.module.imports.get(c.func.value.id) == 'yaml':
-                out.append((fi, c))
-    return out
-
-
-def factory_of(fi: FunctionInfo) -> Optional[FunctionInfo]:
-    p = fi
-    while p.parent is not None:
-        p = p.parent
-    return p
-
-
-def r06_5_dumper_sinks(ctx, rid='R06.5'):
-    P = ctx.P
-    r = ctx.rule(rid, 'every yaml.dump call passes Dumper= the UserDumper class created by its own factory (a subclass of '
-                      'yatiml.Dumper)', floor=4)
-    for fi, c in yaml_calls(P, 'dump') + yaml_calls(P, 'dump_all') + yaml_calls(P, 'safe_dump') + yaml_calls(P, 'serialize'):
-        if c.func.attr in ('safe_dump', 'serialize'):
-            r.fail('%s:%s' % (fi.key, c.func.attr), fi.loc(c), 'yaml.%s bypasses the yatiml Dumper' % c.func.attr)
-            continue
-        de = kwarg(c, 'Dumper')
-        cl = _value_classes(P, fi, de) if de is not None else []
-        fac = factory_of(fi)
-        ok = bool(cl) and all(P.is_subclass(k, 'yatiml.dumper:Dumper') and k.parent_func is fac for k in cl)
-        sink = 'stream' if len(c.args) > 1 else 'string'
-        r.check(ok, '%s: yaml.dump(.., Dumper=%s) -> %s' % (fi.qual, norm(de) if de is not None else None, [k.qual for k in cl]),
-                '%s:yaml.dump:Dumper:%s' % (fi.key, _site_tag(fi, c)), fi.loc(c),
-                'yaml.dump (%s sink) is called with Dumper=%s: PyYAML\'s default Dumper would emit !!python/object tags and '
-                'ignore the registered representers' % (sink, norm(de) if de is not None else 'nothing'))
-    r.done()
-
-
-def _site_tag(fi: FunctionInfo, c: ast.Call) -> str:
-    """stable name of a yaml.dump call site: which sink branch it serves"""
-    f = fn_of(fi)
-    gs = f.guard_texts(c)
-    if any('isinstance(sink, Path)' == g for g in gs):
-        return 'path-sink'
-    if any('not isinstance(sink, Path)' == g for g in gs):
-        return 'stream-sink'
-    return 'string' if len(c.args) <= 1 else 'sink'
-
-
-_fnobj_cache: Dict[str, Fn] = {}
-
-
-def fn_of(fi: FunctionInfo) -> Fn:
-    k = '%d:%s' % (id(fi), fi.key)
-    if k not in _fnobj_cache:
-        if len(_fnobj_cache) > 300:
-            _fnobj_cache.clear()
-        _fnobj_cache[k] = Fn(fi)
-    return _fnobj_cache[k]
-
-
-def r12_sinks(ctx):
-    P = ctx.P
-    dumps = yaml_calls(P, 'dump')
-    by_factory: Dict[str, List[Tuple[FunctionInfo, ast.Call]]] = {}
-    for fi, c in dumps:
-        by_factory.setdefault(factory_of(fi).name, []).append((fi, c))
-
-    def kwset(c):
-        return {k.arg: norm(k.value) for k in c.keywords if k.arg != 'Dumper'}
-
-    r1 = ctx.rule('R12.1', 'YAML sinks: the string variant and both file/stream branches call yaml.dump with the same options',
-                  floor=2)
-    sites = by_factory.get('dumps_function', []) + by_factory.get('dump_function', [])
-    for fi, c in sites:
-        r1.check(kwset(c) == {} and norm(c.args[0]) == fi.params[1], '%s %s: yaml.dump(obj%s) with no further options'
-                 % (fi.qual, _site_tag(fi, c), ', sink' if len(c.args) > 1 else ''), '%s:yaml.dump:options:%s' % (fi.key, _site_tag(fi, c)),
-                 fi.loc(c), 'YAML dump site passes %s: the text differs from what the other sinks produce' % kwset(c))
-    n_str = len(by_factory.get('dumps_function', []))
-    n_file = len(by_factory.get('dump_function', []))
-    r1.check(n_str == 1 and n_file >= 2, '1 string site and %d file/stream sites' % n_file, 'yatiml.dumper:yaml-dump-sites',
-             'yatiml/dumper.py', 'expected one yaml.dump site in dumps_function and two in dump_function, found %d/%d' % (n_str, n_file))
-    r1.done()
-
-    r2 = ctx.rule('R12.2', 'JSON sinks: all three yaml.dump sites pass indent=<param indent> and allow_unicode=not <param '
-                           'ensure_ascii>', floor=2)
-    jsites = by_factory.get('dumps_json_function', []) + by_factory.get('dump_json_function', [])
-    for fi, c in jsites:
-        kw = kwset(c)
-        ok = kw == {'indent': 'indent', 'allow_unicode': 'not ensure_ascii'} and 'indent' in fi.params and 'ensure_ascii' in fi.params
-        r2.check(ok, '%s %s: indent=indent, allow_unicode=not ensure_ascii' % (fi.qual, _site_tag(fi, c)),
-                 '%s:yaml.dump:json-options:%s' % (fi.key, _site_tag(fi, c)), fi.loc(c),
-                 'JSON dump site passes %s instead of indent=indent, allow_unicode=not ensure_ascii: this sink ignores or '
-                 'inverts an option the other sinks honour' % kw)
-    r2.check(len(by_factory.get('dumps_json_function', [])) == 1 and len(by_factory.get('dump_json_function', [])) >= 2,
-             '1 string site and >= 2 file/stream sites', 'yatiml.dumper:json-dump-sites', 'yatiml/dumper.py',
-             'unexpected number of JSON yaml.dump sites')
     r2.done()
 
     r3 = ctx.rule('R12.3', 'sibling factories configure their UserDumper identically (output_format, effective representer '
